@@ -189,6 +189,9 @@ func TestHarness(t *testing.T) {
 					emit(FamForeign(seed))
 				}
 			}
+			if has("streamtear") {
+				emit(guard("streamtear", "json-raw/stream", seed, func() SysRecord { return FamStreamTear(seed) }))
+			}
 			for _, f := range []string{"values", "errors", "closures", "nest"} {
 				if !has(f) {
 					continue
@@ -209,6 +212,8 @@ func TestHarness(t *testing.T) {
 				}
 			}
 		}
+	case "bcast-stress":
+		emit(BcastStress(job.N))
 	case "remote":
 		for _, c := range RunRemotes() {
 			emit(c)
